@@ -83,6 +83,9 @@ def run(ctx):
         import docwalk
         ctx.guard(docwalk.cursor_advance, ctx, cfg, fs, 'C.cursor', r'render_console$|Doc::first_line$')
         ctx.guard(docwalk.payload_writers, ctx, cfg, fs, 'C.cursor')
+        import c13
+        # the name / metavariable column and the help text stay two separate words (shared with C13)
+        ctx.guard(c13.term_gap, ctx, cfg, fs, 'C.cursor')
         import c04 as c04_, c08 as c08_
         ctx.guard(c08_.keep_only, ctx, lambda: c04_.str_index(ctx, cfg, fs), lambda o: 'Splitter' in o.key, 'C.cursor')
         ctx.guard(c08_.keep_only, ctx, lambda: c04_.str_cut(ctx, cfg, fs), lambda o: 'Splitter' in o.key, 'C.cursor')
